@@ -1490,6 +1490,12 @@ BW_MidiSequencer::MidiEvent BW_MidiSequencer::parseEvent(const uint8_t **pptr, c
         evt.subtype = evtype;
         evt.data.insert(evt.data.begin(), data.begin(), data.end());
 
+        // Meta types are 7-bit. Higher values are the internal <CUSTOM> sub-types (loop points,
+        // raw OPL writes, callback triggers), whose payload sizes the player relies on:
+        // a file can't be allowed to inject them
+        if(evtype >= 0x80)
+            evt.subtype = MidiEvent::ST_SEQUENCERSPEC;
+
 #if 0 /* Print all tempo events */
         if(evt.subtype == MidiEvent::ST_TEMPOCHANGE)
         {
